@@ -24,6 +24,7 @@ type base struct {
 	kind    string
 	data    []byte
 	file    pdfw.File
+	xs      *xsBase // container-level PDF written by xsbase.go instead of pdfw (file is unused then)
 	built   pdfw.Built
 	members []zipw.Member
 }
@@ -37,6 +38,16 @@ func tinyDoc() pdfw.Doc {
 		ln(pdfw.Type1WinAnsi, 72, 700, 14, "Tiny Heading"),
 		ln(pdfw.Type1WinAnsi, 72, 670, 10, "body (x) \\ line"),
 	}}}}
+}
+
+// markedDoc: the content stream also carries a marked-content property dictionary and a TJ array
+// (the two operand kinds pdfw's plain lines never produce).
+func markedDoc() pdfw.Doc {
+	d := tinyDoc()
+	d.Name = "marked"
+	d.Pages[0].ExtraTokens = []string{"/Span", "<< /MCID 0 /Lang (en) >>", "BDC",
+		"BT", "/F1", "9", "Tf", "72", "640", "Td", "[ (T) -80 <4A> ]", "TJ", "ET", "EMC"}
+	return d
 }
 
 func twoPageDoc() pdfw.Doc {
@@ -212,7 +223,8 @@ func htmlBytes() []byte {
 func allBases() []base {
 	var bs []base
 	bs = append(bs,
-		pdfBase("pdf-classic", pdfw.Plan(tinyDoc(), pdfw.Layout{})),
+		pdfBase("pdf-classic", pdfw.Plan(markedDoc(), pdfw.Layout{})),
+		xsContainerBase(),
 		pdfBase("pdf-xstream", pdfw.Plan(twoPageDoc(), pdfw.Layout{XRef: "stream", ObjStm: "all", Filter: "Fl"})),
 		pdfBase("pdf-cid", pdfw.Plan(cidDoc(), pdfw.Layout{})),
 		pdfBase("pdf-indlen", pdfw.Plan(tinyDoc(), pdfw.Layout{Length: "after", Indirect: true})),
